@@ -521,7 +521,18 @@ func verifH_C05_text() {
 	for i := 0; i < R; i++ {
 		tbl.rows = append(tbl.rows, []interface{}{int64(verifI32("a")), verifI64("b"), verifString("s", 1), verifBool("f")})
 	}
-	rm := &verifRM{tables: map[string]*verifStubTable{"t": tbl}}
+	var rm RelationManager = &verifRM{tables: map[string]*verifStubTable{"t": tbl}}
+	if verifParam("real", 0) == 1 {
+		// the same rows in a real database: stored through the executor, flushed,
+		// and read back from a cold store (real Fetch, page decoding, row decoding)
+		rs := verifNewDB(0)
+		verifAssert(EvaluateCreateTable(verifCreateStmt("t", verifStdCols), rs) == nil, "create")
+		_, ierr := EvaluateInsert(verifInsertStmt("t", nil, tbl.rows), rs)
+		verifAssert(ierr == nil, "insert-ok")
+		verifAssert(storage.VerifFlush(rs) == nil, "flush-ok")
+		storage.VerifAbandon(rs)
+		rm = verifOpenDB(0)
+	}
 	// literals: one symbolic decimal digit each
 	var lits [3]int64
 	text := verifC05Templates[ti]
